@@ -559,7 +559,7 @@ def compare(prog, impl, model):
 
 def correspondence(R, procs):
     from .c06 import _pool_map
-    n, nops = (160, 24) if R.quick else (2500, 36)
+    n, nops = (160, 24) if R.quick else (2000, 36)
     progs = [gen_mprog(R.rng, nops) for _ in range(n)] + [gen_lazy_mprog(R.rng, 16) for _ in range(n // 4)]
     res = _pool_map(_run_m, progs, procs)
     lines, keep = [], []
